@@ -77,6 +77,12 @@ func checkC10(c *Ctx) {
 	r.Rule("R10e", "client-side mapping of error responses (Go and TS)", 8)
 	r.Rule("R10j", "the 400 body for an undecodable request is deliverable: decoder error text (which quotes raw request bytes) reaches FieldViolation.Description only through a UTF-8 sanitiser or %q — an invalid-UTF-8 proto3 string makes the marshalling of the ValidationError fail and the client gets a bare text 400", 1)
 	decodeErrorTextSanitised(c, "R10j")
+	r.Rule("R10m", "one violation per offending header: every index into the merged header map of the emitted validateHeaders, stores and seen-lookups alike, uses the case-folded name (shared with C09/R09n)", 2)
+	if ep, err := c.ServerRuntime(); err == nil {
+		c09MergeKeysFolded(c, ep, "R10m")
+	} else {
+		r.Unres("R10m", "emitted server runtime", "", err.Error())
+	}
 	r.Rule("R10l", "violations of the URL binders are deliverable as the documented 400 body: no raw URL value in a description except under %q (shared with C02/R02q)", 2)
 	if ep10, err10 := c.ServerRuntime(); err10 == nil {
 		urlValueNotEchoed(c, ep10, "R10l")
